@@ -336,3 +336,72 @@ def check_C03(tier, seed):
         cases = [c for c in vmrun.run_scenarios(scns) if 'harness_error' not in c]
         engine.judge_cases(rep, cases, devs, what='cap scenario')
     return rep.finish()
+
+
+def check_C16(tier, seed):
+    """Syntax part (lexer/parser layer) + evaluator part (MC_C16 and failing programs); one evidence file."""
+    from . import vmgen
+    quick = tier == 'quick'
+    rep = Report('C16', tier, seed)
+    devs = engine.open_deviations()
+    rep.notes['rule'] = ('evaluator: TLC model MC_C16 plants each language-level failure (undefined variable / function, compound assignment '
+                         'to an undefined name, missing key or index read, compound index assignment on a missing key, empty / out-of-range '
+                         'pop, size cap, op budget, non-container arguments) in each of 26 expression contexts x 8 statement contexts, and as '
+                         'statements inside host AST lambdas: ClassInv (outcome is ParserError or its ops-limit subclass); replay on the code '
+                         '+ random failing programs validated by TLC; syntax: all character/token strings up to a bound, truncations at every '
+                         'token boundary, character soup, hostile inputs in a subprocess (lexparse layer)')
+    res = engine.model_check(rep, 'MC_C16.tla', 'MC_C16.cfg', timeout=900, coverage=not quick)
+    rep.exhaustive = True
+    engine.model_check(rep, 'MC_C16.tla', 'MC_C16.cfg', deviations=['ShortOpKeyError'], expect_violation=True, timeout=600)
+    engine.model_check(rep, 'MC_C16.tla', 'MC_C16.cfg', deviations=['SetWithOpLookupError'], expect_violation=True, timeout=600)
+    if not rep.machinery:
+        recs = _emitted(res)
+        for r in recs:      # the model's full list holds Cap (=5) elements; the code's cap is 10000
+            r['heap0'][3]['items'] = [r['heap0'][3]['items'][0]] * 10000
+        engine.replay_emitted(rep, recs, devs, sample=1500 if quick else 4000, seed=seed, what='TLC scenario')
+    scns = vmgen.failing_programs(seed, 1500 if quick else 12000)
+    cases = [c for c in vmrun.run_scenarios(scns) if 'harness_error' not in c]
+    engine.judge_cases(rep, cases, devs, what='failing program')
+    _base_exceptions(rep, cases)
+    # syntax layer
+    lp = _lexparse()
+    open_devs = [d for d in devs if d in lp.ALL_DEVIATIONS] + list(lp.IMPL_DETAIL)
+    try:
+        st = lp.check_C16_syntax(tier, seed, tuple(open_devs))
+        rep.states += int(st.get('states', 0))
+        rep.transitions += int(st.get('transitions', 0)) or int(st.get('states', 0))
+        rep.traces += int(st.get('traces_validated', 0))
+        rep.evaluations += int(st.get('evaluations', 0))
+        rep.distinct |= set('lp%d' % i for i in range(int(st.get('distinct', 0))))
+        rep.samples += list(st.get('samples', []))[:3]
+        rep.notes['syntax_runs'] = st.get('runs', [])[:30]
+        mine = {f['deviation'] for f in engine.load_known_findings() if f.get('property') == 'C16' and f.get('status') == 'open'}
+        other = {}
+        for m in st.get('mismatches', []):
+            ex = m.get('explained_by')
+            if ex:
+                if not m.get('non_defect'):
+                    for d in str(ex).split('+'):
+                        if d in mine:
+                            rep.known.append((d, engine.finding_text(d)))
+                continue
+            clause = str(m.get('kind') or m.get('clause'))
+            if clause not in RELEVANT_CLAUSES['C16']:
+                other[clause] = other.get(clause, 0) + 1
+                continue
+            rep.violation('%s: clause %s on %r: specified %s, observed %s' % (m.get('origin'), clause, m.get('input'),
+                                                                         str(m.get('expected'))[:200], str(m.get('observed'))[:200]), m)
+        if other:
+            rep.notes['differences_outside_this_property'] = other
+    except lp.MachineryError as e:
+        rep.machinery.append(str(e)[-2000:])
+    return rep.finish()
+
+
+def _base_exceptions(rep, cases):
+    """Nothing that is not an ordinary Exception may escape from eval."""
+    for c in cases or []:
+        for e in c['events']:
+            if e['e'] == 'end' and e['out']['t'] == 'exc' and e['out']['e']['exc'] == 'Base':
+                rep.violation('eval raised a non-Exception BaseException %s: %r' % (e['out']['e']['name'], [cl['src'] for cl in c['calls']]),
+                              {'case': engine.slim(c)})
